@@ -25,22 +25,22 @@ theorem waiting_zero_iff {s : State} (hk : KInv s) : waiting s = 0 ↔ s.index =
 /-! ### potentials -/
 
 def PX : CPc → Nat
-  | .top => 1 | .reclaim _ _ => 2 | .scan => 3 | .preScan => 4 | .pop2 _ => 5 | .pop1 => 6 | .done => 0
+  | .top => 1 | .reclaim _ _ => 2 | .scan => 3 | .preScan => 4 | .pop2 _ => 5 | .pop1 => 6 | .done => 0 | .off => 0
 
 def PC (s : State) : Nat :=
   match s.cpc with
   | .top => 2 | .pop1 => if s.headSeen then 1 else 6 | .pop2 _ => 6 | .preScan => 5 | .scan => 4
-  | .reclaim _ _ => 3 | .done => 0
+  | .reclaim _ _ => 3 | .done => 0 | .off => 0
 
 def PR (s : State) : Nat :=
   match s.cpc with
   | .reclaim m _ => if (nextReclaimable s m).isSome then 1 else 5
   | .scan => if floorOkB s then 2 else 6
-  | .preScan => 3 | .top => 3 | .pop2 _ => 4 | .pop1 => 5 | .done => 0
+  | .preScan => 3 | .top => 3 | .pop2 _ => 4 | .pop1 => 5 | .done => 0 | .off => 0
 
 /-! ### the collector has seen the marker and has nothing left: it exits -/
 
-def CondX (s : State) : Prop := waiting s = 0 ∧ s.running = false ∧ s.cpc ≠ .done
+def CondX (s : State) : Prop := waiting s = 0 ∧ s.running = false ∧ collActive s.cpc = true
 
 theorem scen_exit {c : Cfg} (x : Exec c) (n0 : Nat) (hf : Fair x n0) :
     ∀ n, n0 ≤ n → CondX (x.σ n) → ∃ m, n < m ∧ mu (x.σ m) < mu (x.σ n) := by
@@ -70,10 +70,10 @@ theorem scen_exit {c : Cfg} (x : Exec c) (n0 : Nat) (hf : Fair x n0) :
           have hl := lim1_pos g.cap s.popIdx
           have hne : ¬ (0 = c.lim1 s.popIdx ∧ c.lim1 s.popIdx < c.batch) := by omega
           simp only [popCells_zero, if_neg hne]
-          exact ⟨⟨hw, hrun, by simp⟩, by simp [PX, hpc]⟩
+          exact ⟨⟨hw, hrun, by simp [collActive]⟩, by simp [PX, hpc]⟩
         · left
           have := mu_popCells hk hp.1 (if n = c.lim1 s.popIdx ∧ c.lim1 s.popIdx < c.batch then CPc.pop2 (c.batch - c.lim1 s.popIdx) else CPc.preScan)
-            (by rw [hpc]; simp) (by split <;> simp)
+            (by rw [hpc]; rfl) (by split <;> rfl)
           exact Nat.lt_of_lt_of_le (Nat.lt_add_of_pos_right hpos) this
       · rename_i lim hpc
         split at hs <;> try contradiction
@@ -83,9 +83,9 @@ theorem scen_exit {c : Cfg} (x : Exec c) (n0 : Nat) (hf : Fair x n0) :
         · subst h0
           right
           simp only [popCells_zero]
-          exact ⟨⟨hw, hrun, by simp⟩, by simp [PX, hpc]⟩
+          exact ⟨⟨hw, hrun, by simp [collActive]⟩, by simp [PX, hpc]⟩
         · left
-          have := mu_popCells hk hp CPc.preScan (by rw [hpc]; simp) (by simp)
+          have := mu_popCells hk hp CPc.preScan (by rw [hpc]; rfl) rfl
           exact Nat.lt_of_lt_of_le (Nat.lt_add_of_pos_right hpos) this
     · -- scanBegin
       simp only [step, stepWith] at hs
@@ -93,7 +93,7 @@ theorem scen_exit {c : Cfg} (x : Exec c) (n0 : Nat) (hf : Fair x n0) :
       rename_i hg
       injection hs with hs; subst hs
       rcases hg with hg | hg
-      · right; exact ⟨⟨hw, hrun, by simp⟩, by simp [PX, hg]⟩
+      · right; exact ⟨⟨hw, hrun, by simp [collActive]⟩, by simp [PX, hg]⟩
       · have := hg.2.1
         simp [loopCond, hrun, hidx] at this
     · -- scanEnd
@@ -101,7 +101,7 @@ theorem scen_exit {c : Cfg} (x : Exec c) (n0 : Nat) (hf : Fair x n0) :
       split at hs <;> try contradiction
       rename_i hg
       injection hs with hs; subst hs
-      right; exact ⟨⟨hw, hrun, by simp⟩, by simp [PX, hg.1]⟩
+      right; exact ⟨⟨hw, hrun, by simp [collActive]⟩, by simp [PX, hg.1]⟩
     · -- reclaim: nothing to reclaim
       simp only [step, stepWith] at hs
       split at hs <;> try contradiction
@@ -114,20 +114,21 @@ theorem scen_exit {c : Cfg} (x : Exec c) (n0 : Nat) (hf : Fair x n0) :
       rename_i m cnt hpc
       split at hs <;> try contradiction
       injection hs with hs; subst hs
-      right; exact ⟨⟨hw, hrun, by simp⟩, by simp [PX, hpc]⟩
+      right; exact ⟨⟨hw, hrun, by simp [collActive]⟩, by simp [PX, hpc]⟩
     · -- exit
       simp only [step, stepWith] at hs
       split at hs <;> try contradiction
+      rename_i hg
       injection hs with hs; subst hs
-      left; simp [mu, hnd]
+      left; simp [mu, hg.1, collActive]
   · intro s s' l g g' ⟨hw, hrun, hnd⟩ hh hr hs
-    obtain ⟨f1, f2, f3, f4, _, _⟩ := frame_nonColl hh hs
+    obtain ⟨f1, f2, f3, f4, _, _⟩ := frame_nonColl hh (by intro h; subst h; cases hr) (by intro h; subst h; rw [stopJoin_needs_done hs] at hnd; cases hnd) hs
     right
     exact ⟨⟨by simp [waiting, f2, f3]; exact hw, by rw [f4]; exact hrun, by rw [f1]; exact hnd⟩, by rw [f1]; exact Nat.le_refl _⟩
 
 /-! ### nothing left to reclaim, marker not seen yet, queue head published: it pops -/
 
-def CondC (s : State) : Prop := waiting s = 0 ∧ s.running = true ∧ headPub s ∧ s.cpc ≠ .done
+def CondC (s : State) : Prop := waiting s = 0 ∧ s.running = true ∧ headPub s ∧ collActive s.cpc = true
 
 theorem scen_consume {c : Cfg} (x : Exec c) (n0 : Nat) (hf : Fair x n0) :
     ∀ n, n0 ≤ n → CondC (x.σ n) → ∃ m, n < m ∧ mu (x.σ m) < mu (x.σ n) := by
@@ -144,7 +145,7 @@ theorem scen_consume {c : Cfg} (x : Exec c) (n0 : Nat) (hf : Fair x n0) :
       injection hs with hs; subst hs
       right
       obtain ⟨x0, hx0⟩ := hhead
-      refine ⟨⟨by simp [waiting], hrun, ⟨x0, hx0⟩, by simp⟩, ?_⟩
+      refine ⟨⟨by simp [waiting], hrun, ⟨x0, hx0⟩, by simp [collActive]⟩, ?_⟩
       simp [PC, hg.1, hx0]
     · -- pop n
       rename_i n
@@ -164,10 +165,10 @@ theorem scen_consume {c : Cfg} (x : Exec c) (n0 : Nat) (hf : Fair x n0) :
             · omega
             · exact h
           simp only [popCells_zero, if_neg hne]
-          exact ⟨⟨hw, hrun, hhead, by simp⟩, by simp [PC, hpc, hseen]⟩
+          exact ⟨⟨hw, hrun, hhead, by simp [collActive]⟩, by simp [PC, hpc, hseen]⟩
         · left
           have := mu_popCells hk hp.1 (if n = c.lim1 s.popIdx ∧ c.lim1 s.popIdx < c.batch then CPc.pop2 (c.batch - c.lim1 s.popIdx) else CPc.preScan)
-            (by rw [hpc]; simp) (by split <;> simp)
+            (by rw [hpc]; rfl) (by split <;> rfl)
           exact Nat.lt_of_lt_of_le (Nat.lt_add_of_pos_right hpos) this
       · rename_i lim hpc
         split at hs <;> try contradiction
@@ -177,9 +178,9 @@ theorem scen_consume {c : Cfg} (x : Exec c) (n0 : Nat) (hf : Fair x n0) :
         · subst h0
           right
           simp only [popCells_zero]
-          exact ⟨⟨hw, hrun, hhead, by simp⟩, by simp [PC, hpc]⟩
+          exact ⟨⟨hw, hrun, hhead, by simp [collActive]⟩, by simp [PC, hpc]⟩
         · left
-          have := mu_popCells hk hp CPc.preScan (by rw [hpc]; simp) (by simp)
+          have := mu_popCells hk hp CPc.preScan (by rw [hpc]; rfl) rfl
           exact Nat.lt_of_lt_of_le (Nat.lt_add_of_pos_right hpos) this
     · -- scanBegin
       simp only [step, stepWith] at hs
@@ -187,7 +188,7 @@ theorem scen_consume {c : Cfg} (x : Exec c) (n0 : Nat) (hf : Fair x n0) :
       rename_i hg
       injection hs with hs; subst hs
       rcases hg with hg | hg
-      · right; exact ⟨⟨hw, hrun, hhead, by simp⟩, by simp [PC, hg]⟩
+      · right; exact ⟨⟨hw, hrun, hhead, by simp [collActive]⟩, by simp [PC, hg]⟩
       · have := hg.2.2
         simp [consumeCond, hrun, hidx] at this
     · -- scanEnd
@@ -195,7 +196,7 @@ theorem scen_consume {c : Cfg} (x : Exec c) (n0 : Nat) (hf : Fair x n0) :
       split at hs <;> try contradiction
       rename_i hg
       injection hs with hs; subst hs
-      right; exact ⟨⟨hw, hrun, hhead, by simp⟩, by simp [PC, hg.1]⟩
+      right; exact ⟨⟨hw, hrun, hhead, by simp [collActive]⟩, by simp [PC, hg.1]⟩
     · -- reclaim: nothing to reclaim
       simp only [step, stepWith] at hs
       split at hs <;> try contradiction
@@ -208,7 +209,7 @@ theorem scen_consume {c : Cfg} (x : Exec c) (n0 : Nat) (hf : Fair x n0) :
       rename_i m cnt hpc
       split at hs <;> try contradiction
       injection hs with hs; subst hs
-      right; exact ⟨⟨hw, hrun, hhead, by simp⟩, by simp [PC, hpc]⟩
+      right; exact ⟨⟨hw, hrun, hhead, by simp [collActive]⟩, by simp [PC, hpc]⟩
     · -- exit needs ¬ running
       simp only [step, stepWith] at hs
       split at hs <;> try contradiction
@@ -216,14 +217,14 @@ theorem scen_consume {c : Cfg} (x : Exec c) (n0 : Nat) (hf : Fair x n0) :
       have := hg.2
       simp [loopCond, hrun] at this
   · intro s s' l g g' ⟨hw, hrun, hhead, hnd⟩ hh hr hs
-    obtain ⟨f1, f2, f3, f4, f5, _⟩ := frame_nonColl hh hs
+    obtain ⟨f1, f2, f3, f4, f5, _⟩ := frame_nonColl hh (by intro h; subst h; cases hr) (by intro h; subst h; rw [stopJoin_needs_done hs] at hnd; cases hnd) hs
     right
     refine ⟨⟨by simp [waiting, f2, f3]; exact hw, by rw [f4]; exact hrun, headPub_nonColl hh hhead hs, by rw [f1]; exact hnd⟩, ?_⟩
     simp only [PC, f1, f5]; exact Nat.le_refl _
 
 /-! ### consumed tasks are waiting and no stale region exists: the next scan frees the head -/
 
-def CondR (s : State) : Prop := 0 < waiting s ∧ s.cpc ≠ .done
+def CondR (s : State) : Prop := 0 < waiting s ∧ collActive s.cpc = true
 
 theorem leLwm_trans {e : Nat} {f m : Lwm} (h1 : leLwm e f = true) (h2 : Lwm.le f m = true) : leLwm e m = true := by
   cases m with
@@ -284,10 +285,10 @@ theorem scen_reclaim {c : Cfg} (x : Exec c) (n0 : Nat) (hf : Fair x n0) :
           have hl := lim1_pos g.cap s.popIdx
           have hne : ¬ (0 = c.lim1 s.popIdx ∧ c.lim1 s.popIdx < c.batch) := by omega
           simp only [popCells_zero, if_neg hne]
-          exact ⟨⟨hw, by simp⟩, by simp [PR, hpc]⟩
+          exact ⟨⟨hw, by simp [collActive]⟩, by simp [PR, hpc]⟩
         · left
           have := mu_popCells hk hp.1 (if n = c.lim1 s.popIdx ∧ c.lim1 s.popIdx < c.batch then CPc.pop2 (c.batch - c.lim1 s.popIdx) else CPc.preScan)
-            (by rw [hpc]; simp) (by split <;> simp)
+            (by rw [hpc]; rfl) (by split <;> rfl)
           exact Nat.lt_of_lt_of_le (Nat.lt_add_of_pos_right hpos) this
       · rename_i lim hpc
         split at hs <;> try contradiction
@@ -297,9 +298,9 @@ theorem scen_reclaim {c : Cfg} (x : Exec c) (n0 : Nat) (hf : Fair x n0) :
         · subst h0
           right
           simp only [popCells_zero]
-          exact ⟨⟨hw, by simp⟩, by simp [PR, hpc]⟩
+          exact ⟨⟨hw, by simp [collActive]⟩, by simp [PR, hpc]⟩
         · left
-          have := mu_popCells hk hp CPc.preScan (by rw [hpc]; simp) (by simp)
+          have := mu_popCells hk hp CPc.preScan (by rw [hpc]; rfl) rfl
           exact Nat.lt_of_lt_of_le (Nat.lt_add_of_pos_right hpos) this
     · -- scanBegin: a fresh scan, whose lower bound is above every task
       simp only [step, stepWith] at hs
@@ -307,7 +308,7 @@ theorem scen_reclaim {c : Cfg} (x : Exec c) (n0 : Nat) (hf : Fair x n0) :
       rename_i hg
       injection hs with hs; subst hs
       right
-      refine ⟨⟨hw, by simp⟩, ?_⟩
+      refine ⟨⟨hw, by simp [collActive]⟩, ?_⟩
       have hok : floorOkB { s with cpc := CPc.scan, must := pinnedNow s, floor := floorNow s } = true := by
         simp only [floorOkB, List.all_eq_true]
         exact floorNow_ok g
@@ -325,7 +326,7 @@ theorem scen_reclaim {c : Cfg} (x : Exec c) (n0 : Nat) (hf : Fair x n0) :
       rename_i hg
       injection hs with hs; subst hs
       right
-      refine ⟨⟨hw, by simp⟩, ?_⟩
+      refine ⟨⟨hw, by simp [collActive]⟩, ?_⟩
       have hle : Lwm.le s.floor m = true := by
         have := hg.2
         simp only [scanEndOk, Bool.and_eq_true] at this
@@ -351,11 +352,7 @@ theorem scen_reclaim {c : Cfg} (x : Exec c) (n0 : Nat) (hf : Fair x n0) :
       split at hs <;> try contradiction
       injection hs with hs; subst hs
       left
-      simp only [mu]
-      have : s.cpc ≠ .done := hnd
-      simp only [if_neg this]
-      have : (CPc.reclaim m (cnt + 1)) ≠ CPc.done := by simp
-      simp only [if_neg this]
+      simp only [mu, hpc, collActive]
       omega
     · -- passEnd: the head was not reclaimable with this pass's mark
       simp only [step, stepWith] at hs
@@ -365,7 +362,7 @@ theorem scen_reclaim {c : Cfg} (x : Exec c) (n0 : Nat) (hf : Fair x n0) :
       rename_i hnone
       injection hs with hs; subst hs
       right
-      refine ⟨⟨hw, by simp⟩, ?_⟩
+      refine ⟨⟨hw, by simp [collActive]⟩, ?_⟩
       have : (nextReclaimable s m).isSome = false := by
         cases h : nextReclaimable s m <;> simp [h] at hnone ⊢
       simp [PR, hpc, this]
@@ -377,7 +374,7 @@ theorem scen_reclaim {c : Cfg} (x : Exec c) (n0 : Nat) (hf : Fair x n0) :
       simp only [loopCond, Bool.or_eq_true, decide_eq_true_eq, not_or, Nat.not_lt] at this
       omega
   · intro s s' l g g' ⟨hw, hnd⟩ hh hr hs
-    obtain ⟨f1, f2, f3, _, _, _⟩ := frame_nonColl hh hs
+    obtain ⟨f1, f2, f3, _, _, _⟩ := frame_nonColl hh (by intro h; subst h; cases hr) (by intro h; subst h; rw [stopJoin_needs_done hs] at hnd; cases hnd) hs
     right
     refine ⟨⟨by simp [waiting, f2, f3]; exact hw, by rw [f1]; exact hnd⟩, ?_⟩
     have hnr : ∀ m, nextReclaimable s' m = nextReclaimable s m := by
@@ -386,7 +383,7 @@ theorem scen_reclaim {c : Cfg} (x : Exec c) (n0 : Nat) (hf : Fair x n0) :
     split
     · simp [hnr]
     · cases hok : floorOkB s with
-      | true => simp [floorOkB_nonColl g hh hok hs]
+      | true => simp [floorOkB_nonColl g hh hr hok hs]
       | false => split <;> simp
     all_goals exact Nat.le_refl _
 
